@@ -22,7 +22,7 @@ pub static DEF: PropDef = PropDef {
 };
 
 pub fn type_universe(tier: Tier) -> Vec<Rc<RT>> {
-    let mut v = types_upto(tier.pick(3, 4));
+    let mut v = types_upto(tier.pick(3, 5));
     // wider members: words, options of words, unequal sums
     let extra: Vec<Rc<RT>> = vec![
         RT::word(2),
